@@ -85,6 +85,12 @@ Proof. exact valid_distinct. Qed.
 Theorem C19_valid_needs_k_le : forall H n k soln, Valid H n k soln -> k <= cbits n k + 1.
 Proof. exact valid_k_bound. Qed.
 
+(** Header level: [BlockHeader::read]'s sequence of reads yields exactly the slices of the header
+    layout (input = first 108 bytes, nonce = next 32, solution = the [len] bytes after the CompactSize
+    prefix), or an error when the bytes are short / the prefix is not canonical. *)
+Theorem C19_read_header_layout : forall raw, read_header raw = hdr_fields raw.
+Proof. exact read_header_eq. Qed.
+
 (** Non-vacuity: a solution found by the harness's solver for (n,k) = (32,3) is [Valid] and accepted. *)
 Local Open Scope uint63_scope.
 Definition ex_soln : bytes := (bw 9 [0x735e1bbd67fc2;0xbfd40000000000]).
